@@ -14,6 +14,21 @@ Clauses of the property sentence treated here, over the model the `pstmt` / `stm
   * the relative order of the JOIN / WHERE / GROUP BY / HAVING / LIMIT clauses,
   * letter case of function, aggregate and type names (and of the modifier / mode words that are identifiers).
 
+LEVELS. The theorems of this file are about the clause loop (`clauseLoop`), about parse trees (`parseTokens` up to
+token locations, `PSelect.SameUpToLoc`) and about the lowering of trees (`renameCalls`, `eraseLoc`). They are LIFTED to
+whole token vectors, to the lowered statement (`parseToks` / `parseText` = `parsing::parse`) and to the answer of the
+whole program (`runText`) in `Props/C20Stmt.lean` (audit-2 M11):
+  * `clause_order_invariance` / `_from_run` (clause loop, slots up to locations)   ⟶ `C20Stmt.clause_order_invariance_tree`,
+    `…_statement`, `…_text`, `clause_order_same_output`
+  * `trailing_semicolon_statement` (trees up to locations)                          ⟶ `C20Stmt.trailing_semicolon_lowered`,
+    `trailing_semicolon_text` (the texts `q`, `q ++ ";"`, `q ++ " ;"`), `trailing_semicolon_same_output`
+  * `names_case_insensitive_statement` (trees related by `renameCalls`), `cast_type_case_insensitive`
+                                                                                    ⟶ `C20Stmt.name_case_statement_partial`,
+    `name_case_text_partial`, `name_case_same_output_partial` (token vectors; SELECT statements)
+  * `column_type_case_insensitive`, `regex_mode_case_insensitive` (CREATE TABLE: `parse_type`, `parse_regex_mode`)
+    are NOT lifted: helper level, see the `MISSING` paragraph in `Props/C20Stmt.lean`
+  * `lowering_ignores_locations` in usable form: `C20Stmt.same_tree_same_statement`.
+
 What is proved outright and what is `…_partial` is said at each theorem. The common piece is *prefix determinism* of
 the expression parser (`Lemmas/ParsePrefix.lean`, builder `pexpr`): the six mutually recursive functions never look
 past the first boundary token (clause keyword, `;`, `End`) of their input and treat all boundary tokens alike. With it
@@ -88,7 +103,8 @@ theorem group_by_is_a_clause (T : PrecTables) (hT : InertBoundary T) (body body'
     IsClause T fuel0 (⟨l1, .kw .group⟩ :: ⟨l2, .kw .by⟩ :: body') (.groupBy ks) :=
   isClause_groupBy hT body body' hnb hbody tail0 hb0 fuel0 ks hrun l1 l2
 
-/-- **Clause order does not matter** — `clause_order_invariance`: let the first token vector consist of clauses
+/-- **Clause order does not matter** (clause loop; for whole statements see `C20Stmt.clause_order_invariance_statement`)
+— `clause_order_invariance`: let the first token vector consist of clauses
 (`ClauseSeg`: `LIMIT n`, a JOIN, or `WHERE e` / `HAVING e` / `GROUP BY e, …` with *arbitrary* expressions, each
 expression being readable on its own in front of some boundary token) of pairwise different kinds, followed by `End`;
 let the second consist of the same clauses (`clauseKey`: the same token sequences with the same values, at any
@@ -167,7 +183,8 @@ theorem trailing_semicolon_loop_step (T : PrecTables) (fuel : Nat) (c : Clauses)
     clauseLoop T (fuel + 1) c { cur := ⟨l, .semi⟩, rest := [⟨l', .eof⟩] } = .ok c { cur := ⟨l', .eof⟩, rest := [] } := by
   simp [clauseLoop, clauseTurn, next]
 
-/-- **Optional trailing semicolon, whole statements** — `trailing_semicolon_statement`: let `pre` be any token vector
+/-- **Optional trailing semicolon, whole statements** (trees up to locations; composed with the lowering and the
+tokenizer in `C20Stmt.trailing_semicolon_text`) — `trailing_semicolon_statement`: let `pre` be any token vector
 without `;` and without `End` tokens. `Parser::parse` (with the fuel it is run with) reads `pre ++ [End]` as a SELECT
 statement **iff** it reads `pre ++ [;, End]` as a SELECT statement, and then the two trees are the same up to token
 locations (`PSelect.SameUpToLoc`: same DISTINCT flag, projections and aliases, table, file, and the same five clause
@@ -298,7 +315,8 @@ theorem lowering_ignores_locations (rv : List Char → Bool) (t : POp) :
   lowerStatement_erase rv t
 
 /-- whole-statement form of `names_case_insensitive`: letter case of function and aggregate names does not matter to
-any statement (projections with aggregate extraction and naming, WHERE, GROUP BY, HAVING) -/
+any statement (projections with aggregate extraction and naming, WHERE, GROUP BY, HAVING). The two trees are related
+by `renameCalls`; that respelling the TOKENS respells the tree this way is `C20Stmt.name_case_tree_partial`. -/
 theorem names_case_insensitive_statement (ρ : List Char → List Char) (hρ : CaseOnly ρ) (rv : List Char → Bool) (t : POp) :
     lowerStatement rv (t.renameCalls ρ) = (lowerStatement rv t).mapErr (CErr.rename ρ) :=
   lowerStatement_rename ρ hρ rv t
